@@ -25,6 +25,7 @@ RULE = (
     "sizes, txt_is_utf8). non-trivial = text contains an escape or quoted string, or a relative "
     "name was printed, or a base64/hex field spans several chunks; distinct by SHA-1; per-type "
     "counts required"
+    ' Part namelimit: 26 record text forms with a relative name of 253..257 octets (relative part + origin) under an origin.'
 )
 ASSUMPTIONS = [
     "well-formed value = one the type's presentation grammar can spell distinctly (grammar flag "
